@@ -87,6 +87,15 @@ static inline bool armed() {
   return R.in_daemon && g_bypass == 0;
 }
 
+// When set (threaded properties that race on files), opening a file or a
+// directory is a scheduling point: another thread may run between a
+// directory listing, an open and the read that follows.
+bool g_yieldAtOpen = false;
+static inline void openYield(const char* why) {
+  if (g_yieldAtOpen && g_bypass == 0 && sched::active())
+    sched::yield(why);
+}
+
 static std::string label(int inc) {
   if (inc < 0)
     return "-";
@@ -247,6 +256,7 @@ static int eisdirFd() {
 
 static int doOpen(int dirfd, const char* cpath, int flags, mode_t mode,
                   bool at) {
+  openYield("open");
   TsanIgnore ig;
   std::string path = at ? std::string(cpath ? cpath : "") : rewrite(cpath);
   bool wr = (flags & O_ACCMODE) != O_RDONLY;
@@ -694,6 +704,7 @@ int __wrap_openat64(int dirfd, const char* path, int flags, ...) {
 static FILE* doFopen(const char* cpath, const char* mode, bool is64) {
   if (!armed())
     return is64 ? __real_fopen64(cpath, mode) : __real_fopen(cpath, mode);
+  openYield("fopen");
   TsanIgnore ig;
   std::string path = rewrite(cpath);
   bool wr = strchr(mode, 'w') || strchr(mode, 'a') || strchr(mode, '+');
@@ -788,6 +799,7 @@ ssize_t __wrap_read(int fd, void* buf, size_t n) {
 DIR* __wrap_opendir(const char* path) {
   if (!armed())
     return __real_opendir(path);
+  openYield("opendir");
   TsanIgnore ig;
   countAccess();
   DIR* d = __real_opendir(path);
